@@ -74,7 +74,7 @@ def main(args):
     quick = args.tier == "quick"
     ck.rule = ("positive and negative pointers = reachable states of the pointer-walk machine spec/mc/MC_C14 over two hostile "
                "documents (23 hostile keys at two levels, arrays, scalars; every location to depth %d; from every location "
-               "every failing token: missing key, index = length, -, -1, 01, +1, ' 1', 1_0, 1.0, non-ASCII digits, any "
+               "every failing token: missing key, index = length, -, -1, 01, +1, ' 1', 1_0, 1.0, an index followed by LF / CR / NUL, non-ASCII digits, any "
                "token on a scalar or string), each replayed through RefResolver.resolve_fragment and, where the target "
                "is a leaf schema, through validation of {\"$ref\": \"#\"+fragment} in 4 drafts; plus random documents "
                "and fragments judged by TLC (Trace_C14). Non-trivial: fragment with >= 1 token; distinct by (doc, fragment)."
